@@ -13,19 +13,19 @@ float values and homogeneous leaf-lists of them.  `scalarOK` is that domain for 
 of YANG's 1..18 —, a float is not a NaN).  Where the code does not preserve a value the full
 statement is kept, the part that holds is `…_partial`, and the negation is proved on a witness.
 -/
-import OnosVerif.Proofs.Value
+import OnosVerif.Proofs.ValueFloat
 
 namespace OnosVerif.Props.C17
 open OnosVerif.Value
 
 /-! ## Round trip: the value read back in PROTO encoding is the value set -/
 
-/-- Scalars other than floats: whatever the model's type options, a supported scalar converted
-    to the native form and back is the same value (an `AsciiVal` comes back as the `StringVal` of
-    the same text).  Covers every width, `-2^63`, `2^63-1`, `2^64-1`, the empty string and the
-    empty byte string, and every decimal64 with int64 digits. -/
-theorem C17_roundtrip_scalar (s : Scalar) (opts : List Nat) (h : scalarOK s = true)
-    (hnf : ∀ f, s ≠ .float f) :
+/-- Scalars: whatever the model's type options, a supported scalar converted to the native form
+    and back is the same value (an `AsciiVal` comes back as the `StringVal` of the same text).
+    Covers every width, `-2^63`, `2^63-1`, `2^64-1`, the empty string and the empty byte string,
+    every decimal64 with int64 digits, and every float32 bit pattern that is not a NaN (±0,
+    subnormals, ±Inf included). -/
+theorem C17_roundtrip_scalar (s : Scalar) (opts : List Nat) (h : scalarOK s = true) :
     roundTrip (.scalar s) opts = .ok (.scalar (norm s)) := by
   cases s with
   | str b => rfl
@@ -57,9 +57,19 @@ theorem C17_roundtrip_scalar (s : Scalar) (opts : List Nat) (h : scalarOK s = tr
     simp only [newDecimal] at this
     rw [this]
   | decNil => simp [scalarOK] at h
-  | float f => exact absurd rfl (hnf f)
+  | float f =>
+    simp only [scalarOK, Bool.and_eq_true, Bool.not_eq_true', two32] at h
+    have hf : f < 4294967296 := of_decide_eq_true h.1
+    simp only [roundTrip, toNative, h.2, Bool.false_eq_true, if_false, toGnmi, newFloat,
+      float32OfGob_gobFloat32 f hf h.2, norm]
   | anyNil => simp [scalarOK] at h
   | other => simp [scalarOK] at h
+
+/-- A float NaN is not converted at all: the conversion panics (`big.NewFloat(NaN)`), which is
+    why `scalarOK` excludes NaN (known finding KF-C17-float-nan-panic). -/
+theorem C17_roundtrip_float_nan_panics :
+    roundTrip (.scalar (.float 0x7FC00000)) [] = .error .panic := by
+  decide
 
 /-- A decimal whose precision does not fit a uint8 does not come back: `uint8(Precision)`
     (digits 1234, precision 258 is read back with precision 2).  Outside YANG's 1..18; shown
@@ -105,6 +115,13 @@ theorem C17_roundtrip_leaflist_decimal (ds : List Int) (p : Nat) (opts : List Na
   have := tvLLDecimal_newLLDecimal ds p h hp
   simp only [newLLDecimal] at this
   rw [this]; rfl
+
+/-- float leaf-lists with members that are not NaN come back with the same bit patterns. -/
+theorem C17_roundtrip_leaflist_float (fs : List Nat) (opts : List Nat) (hne : fs ≠ [])
+    (h : ∀ f ∈ fs, f < 4294967296 ∧ isNaN32 f = false) :
+    roundTrip (.leaflist (fs.map .float)) opts = .ok (.leaflist (fs.map .float)) := by
+  simp only [roundTrip, toNative, handleLeafList_floats _ _ hne, toGnmi]
+  rw [tvLLFloat_newLLFloat fs h]; rfl
 
 /-- string leaf-lists (members sent as `StringVal` or `AsciiVal`): the part that holds — no
     member contains the byte 0x1D.  Empty members are preserved. -/
@@ -154,12 +171,11 @@ theorem C17_roundtrip_leaflist_bytes_leading_empty :
     not. -/
 theorem C17_sent_eq_read (tv : TV) : sentToDevice tv = readProto tv := rfl
 
-/-- For every supported non-float scalar the three uses agree with what the client set. -/
-theorem C17_stored_eq_sent_eq_read (s : Scalar) (opts : List Nat) (h : scalarOK s = true)
-    (hnf : ∀ f, s ≠ .float f) :
+/-- For every supported scalar the three uses agree with what the client set. -/
+theorem C17_stored_eq_sent_eq_read (s : Scalar) (opts : List Nat) (h : scalarOK s = true) :
     ∃ tv, toNative (.scalar s) opts = .ok tv ∧
       sentToDevice tv = .ok (.scalar (norm s)) ∧ readProto tv = .ok (.scalar (norm s)) := by
-  have hrt := C17_roundtrip_scalar s opts h hnf
+  have hrt := C17_roundtrip_scalar s opts h
   simp only [roundTrip] at hrt
   cases htn : toNative (.scalar s) opts with
   | error e => rw [htn] at hrt; simp at hrt
